@@ -131,13 +131,16 @@ def fixup(rng, env, depth=0, satisfy=0.9):
     env._memo.clear()
 
 
-def draw_params(rng, sd):
+def draw_params(rng, sd, module=None):
     vals = []
     for _n, k, b in sd.params:
         if k == "UInt":
             vals.append(rng.choice([0, 1, 2, 3, (1 << b) - 1, rng.randint(0, (1 << b) - 1)]))
         elif k == "Int":
             vals.append(rng.choice([0, 1, -1, 2, -(1 << (b - 1)), (1 << (b - 1)) - 1]))
+        elif module is not None:
+            # an enum parameter: one of the declared values, or a small unnamed one
+            vals.append(rng.choice([v for _name, v in module.enum(k).values] + [0, 1, 2]))
         else:
             vals.append(0)
     return vals
@@ -392,7 +395,7 @@ def scenario_stream(rng, module, cfg):
     """A receiver appends arriving bytes to an exact-size buffer and inspects the view after each delivery."""
     st = rng.choice(module.mains)
     sd = module.struct(st)
-    params = draw_params(rng, sd)
+    params = draw_params(rng, sd, module)
     kind = rng.choices(["valid", "garbage", "truncate", "flip", "oversize", "broken"], weights=cfg["stream_weights"])[0]
     ops = [{"op": "reset"}]
     msg = None
